@@ -45,12 +45,12 @@ Definition round (c : cache) (k : bytes) : bool * cache :=
   match find_region_by_key pd budget fuel 0 c k false with
   | (Ok r, c1, _) =>
       match rpc_ctx c1 (r_verid r) with
-      | Some (r', p) =>
+      | (Some (r', p), c2) =>
           match store_reply (r_verid r') p with
-          | RepOk => (true, c1)
-          | rep => (false, react c1 r' p rep)
+          | RepOk => (true, c2)
+          | rep => (false, react c2 r' p rep)
           end
-      | None => (false, c1)
+      | (None, c2) => (false, c2)
       end
   | (Err _, c1, _) => (false, c1)
   end.
